@@ -19,7 +19,8 @@ CONSTANTS Dev_LateHexCheck,
                                 \* i.e. possibly after the label file was rewritten (the code before it was repaired)
 
 Passes == {"read", "parse", "constants", "compress", "pseudo", "immediates", "encode", "data"}
-OutTrouble == {"out-nodir", "lab-nodir", "hex-isdir"}     \* -o / -l name a file in a directory that does not exist; <output>.hex is a directory
+OutTrouble == {"out-nodir", "lab-nodir", "hex-isdir", "lab-alias"}     \* -o / -l name a file in a directory that does not exist; <output>.hex is a directory;
+                                                                       \* -l names the very file -o (or <output>.hex) names: no run can leave both contents, so it must be refused
 Trouble == {"none", "missing-input", "bad-incdir", "hex-syntax", "hex-negative", "hex-toolarge"} \cup {"asm-" \o p : p \in Passes} \cup OutTrouble
 HexTrouble == {"hex-syntax", "hex-negative", "hex-toolarge"}
 Files == {"out", "lab", "hex"}
@@ -33,7 +34,8 @@ Init ==
         /\ (t \in HexTrouble => h) /\ (t = "bad-incdir" => i) /\ (t = "asm-compress" => c)
         /\ (~l => "lab" \notin pre) /\ (~h => "hex" \notin pre)
         /\ (t = "out-nodir" => ~defout /\ "out" \notin pre /\ "hex" \notin pre) /\ (t = "lab-nodir" => l /\ "lab" \notin pre)
-        /\ (t = "hex-isdir" => h /\ "hex" \in pre)       \* ("old" stands for the directory that is already there)
+        /\ (t = "hex-isdir" => h /\ "hex" \in pre)
+        /\ (t = "lab-alias" => l /\ "lab" \notin pre)       \* ("old" stands for the directory that is already there)
         \* -v (log to stdout) and --include-definitions (bundled chip definitions on the search path) change no file effect;
         \* they are only explored together with the plain option set to keep the space small
         /\ ((v \/ defs) => (~i /\ defout /\ pre = Files \cap (IF l THEN Files ELSE Files \ {"lab"}) \cap (IF h THEN Files ELSE Files \ {"hex"})))
